@@ -692,9 +692,24 @@ impl ContainsGenericsExt for syn::Type {
                 })
             }
 
+            // What a type macro expands to isn't known, but the parameters it is given are.
+            Self::Macro(syn::TypeMacro { mac }) => {
+                fn mentions(tokens: TokenStream, type_params: &[&syn::Ident]) -> bool {
+                    tokens.into_iter().any(|tt| match tt {
+                        proc_macro2::TokenTree::Ident(ident) => {
+                            type_params.iter().any(|param| **param == ident)
+                        }
+                        proc_macro2::TokenTree::Group(group) => {
+                            mentions(group.stream(), type_params)
+                        }
+                        _ => false,
+                    })
+                }
+                mentions(mac.tokens.clone(), type_params)
+            }
+
             Self::ImplTrait(..)
             | Self::Infer(..)
-            | Self::Macro(..)
             | Self::Never(..)
             | Self::Verbatim(..) => false,
             _ => unimplemented!(
